@@ -29,7 +29,7 @@ TIERS = {
 }
 
 TRACE_UNIV = dict(macs=["m%d" % i for i in range(1, 9)], pool=list(range(1, 9)), outs=[9, 10], gw=0, far=11,
-                  reqhosts=["", "h1", "h2", "h3"], stathosts=["", "h1", "h2", "h4"], leaset=4)
+                  reqhosts=["", "h1", "h2", "g3", "bad"], badhosts=["bad"], stathosts=["", "h1", "h2", "g5"], leaset=4)
 
 
 def parse_cfg(name):
@@ -49,7 +49,8 @@ def parse_cfg(name):
         return int(m.group(1))
 
     return dict(macs=setof("Macs"), pool=setof("Pool"), outs=setof("Outs"), gw=intof("GW"), far=intof("Far"),
-                reqhosts=setof("ReqHosts"), stathosts=setof("StaticHosts"), leaset=intof("LeaseT"))
+                reqhosts=setof("ReqHosts"), stathosts=setof("StaticHosts"), badhosts=setof("BadHosts"),
+                leaset=intof("LeaseT"))
 
 
 def scratch(ctx):
@@ -114,7 +115,6 @@ def classify(rec):
         # leases.json is written before the table is changed
         if newprob == {"disk:differs"} and _ms(post.get("disk", [])) == _ms(src) and _ms(ls) != _ms(src):
             return "decline-stores-before-change"
-        return None
 
     if act in ("AddStatic", "UpdateStatic", "Restart") and why == "structures" and newprob == {"bitset:+0"}:
         # a reservation outside the range marks offset 0 of the range as leased
@@ -162,15 +162,55 @@ def classify(rec):
                 came.remove((g[0], g[1], g[2], ""))
             ok = ok and (dropped or renamed)
         if ok and not came:
+            # The host name of a dynamic lease was blanked but hostsIndex still has it: that stale
+            # entry is what makes the add fail (ErrDupHostname) -- its own defect.  Otherwise the
+            # add was refused for a reason that should have been found before anything was removed.
+            if "hostindex:extra" in newprob:
+                return "addstatic-hostname-index-stale"
             return "addstatic-error-after-mutation"
+
+    if act in ("Request", "Decline") and why == "state" and reply == "ack" \
+            and not (newprob - {"hostindex:miss", "hostindex:extra", "dns:ipbyhost", "dns:hostbyip"}):
+        mine = [l for l in ls if l[0] == a["m"]]
+        if len(mine) == 1:
+            me = mine[0]
+            others = [l for l in ls if l is not me]
+            # commitLease falls back to the generated name without checking that it is free
+            if me[3] == "g%d" % me[1] and any(o[3] == me[3] for o in others) \
+                    and _ms(others) == _ms([l for l in src if l[0] != a["m"]]):
+                return "duplicate-generated-hostname"
+            # a client host name that cannot be used leaves the acknowledged lease without any name
+            if act == "Request" and a["h"] in (univ.get("badhosts") or []) and me[3] == "" and me[2] > 0:
+                for w in want:
+                    wl = [x.split("/") for x in w["Dst"].split(",") if x]
+                    wl = [list(l) for l in src] if w["Same"] else [[m, int(i), int(f), h] for m, i, f, h in wl]
+                    wm = [l for l in wl if l[0] == a["m"]]
+                    if len(wm) == 1 and _ms(others + [[me[0], me[1], me[2], wm[0][3]]]) == _ms(wl):
+                        return "unusable-hostname-leaves-lease-nameless"
 
     static_out = any(l[2] == -1 and l[1] in outs for l in ls) and not any(l[1] == pool0 for l in ls)
     if act == "Restart" and why == "state" and not (newprob - {"disk:differs"} - ({"bitset:+0"} if static_out else set())):
         # dynamic leases without a host name come back with a generated one
         disk = rec.get("srcdisk") or []
-        want_ls = [[l[0], l[1], l[2], ("g%d" % l[1]) if (l[2] >= 0 and l[3] == "") else l[3]] for l in disk]
-        if _ms(want_ls) == _ms(ls) and _ms(ls) != _ms(disk):
+        by_addr = {(l[0], l[1], l[2]): l[3] for l in ls}
+        same_leases = _ms([l[:3] for l in disk]) == _ms([l[:3] for l in ls])
+        renamed = [l for l in disk if by_addr.get((l[0], l[1], l[2])) != l[3]]
+        if same_leases and renamed and all(
+                l[2] >= 0 and l[3] == "" and by_addr[(l[0], l[1], l[2])] == "g%d" % l[1] for l in renamed):
             return "restart-names-unacked-lease"
+        # a lease of the database is not restored because the name it has there is, after loading,
+        # the name of another lease (ResetLeases drops it with ErrDupHostname)
+        lost = [d for d in disk if (d[0], d[1], d[2]) not in by_addr]
+        kept = [d for d in disk if (d[0], d[1], d[2]) in by_addr]
+        names = [l[3] for l in ls]
+
+        def kept_ok(d):
+            now = by_addr[(d[0], d[1], d[2])]
+            return now == d[3] or (d[2] >= 0 and d[3] == "" and now == "g%d" % d[1])
+
+        if lost and len(kept) == len(ls) and all(d[3] != "" and d[3] in names for d in lost) \
+                and all(kept_ok(d) for d in kept):
+            return "restart-drops-lease-on-hostname-clash"
     return None
 
 
